@@ -243,6 +243,12 @@ def main(argv):
         sub_cases += [(b"", z16 + b"\n", "line-hashing-to-0"), (b"x\n", b"a\n" + z16 + b"\nx\n" + z16 + b"\n", "line-hashing-to-0"),
                       (z16 + b"\n", b"a\n" + z16 + b"\nb\n", "line-hashing-to-0"), (b"", b"", "boundary"), (b"a\n", b"a", "boundary"),
                       (b"a\r\n", b"a\na\r\nb\n", "boundary"), (b"\n", b"\n\nx\n", "boundary")]
+        # partial collisions (hashes agree in the low / high 32 bits only): the other line must NOT be removed
+        partial = murmur_partial_collisions(250000 if not thorough else 1500000, seed=1)
+        for kind_, prs in partial.items():
+            for a_, b_ in prs:
+                sub_cases.append((a_ + b"\n", b_ + b"\n" + a_ + b"\nq\n" + b_ + b"\n", "partial-collision/" + kind_))
+                sub_cases.append((b_ + b"\n", a_ + b"\n", "partial-collision/" + kind_))
         # many keys: every growth step of the table
         big = [b"s%d" % i for i in range(30000 if not thorough else 400000)]
         sub_cases.append((join(big[::2]), join(big), "large"))
@@ -278,6 +284,10 @@ def main(argv):
         cc_cases += [(None, z16u + b"\n", "line-hashing-to-0"), (None, b"a\n " + z16u + b"\nb\n" + z16u + b" \n", "line-hashing-to-0"),
                      (z16u + b"\n", b"a\n" + z16u + b"\n", "line-hashing-to-0"), (None, b"", "boundary"), (b"", b"x", "boundary"),
                      (None, b"\xff\n\xff\nok\nok\n", "boundary"), (MAGIC + b"\n", MAGIC + b"\nq\n", "boundary")]
+        for kind_, prs in partial.items():
+            for a_, b_ in prs:
+                cc_cases.append((None, a_ + b"\n" + b_ + b"\n" + a_ + b"\n", "partial-collision/" + kind_))
+                cc_cases.append((a_ + b"\n", b_ + b"\n" + a_ + b"\n", "partial-collision/" + kind_))
         cc_results = []
         for rem, data, kind in cc_cases:
             args = [] if rem is None else [R.file("removal", rem)]
